@@ -208,6 +208,8 @@ def main(pid):
         "z3 bit-vector width 4 for counters (overflow is a bad bit)",
         "queue contract lemma (E1, xh/harness_queue.py): the real RandomQueue / PriorityQueue / simple queue under CrossHair with a stubbed `random` "
         "(randrange within its documented range, shuffle = a symbolic permutation), symbolic items/priorities, operation strings of <= 8 put/get",
+        "cycle lemma (E1, xh/harness_topo.py; C07 only): the real topological_sort / assert_acyclic on symbolic digraphs (N<=4, self loops, parallel edges) "
+        "vs the harness' transitive closure; uberjob.run on 3-call plans with symbolic dependency edges in any direction, with / without a registry",
         "pruning lemma (E1, xh/harness_prune.py; C01/C04 only): plans of 4-5 nodes (calls / literals by the condition's kind string) with symbolic edges and "
         "argument-vs-dependency kinds; the engine graph of the real dry run + prune_source_literals vs the harness' transitive closure of the logical plan",
     ]
@@ -241,6 +243,15 @@ def lemma_conditions(pid, tier):
             cs.append(xhrun.Cond("harness_queue", "c04_queue", {"XH_Q": kind, "XH_NINIT": ninit, "XH_OPS": ops}, timeout=300,
                                  label=f"queue_contract_{kind}_init{ninit}_{ops}"))
     cs.append(xhrun.Cond("harness_queue", "c04_create_queue", {}, timeout=300, label="queue_contract_create_queue"))
+    if pid == "C07":
+        # cycles are rejected up front: the real Kahn implementation on symbolic digraphs, and run() on plans with symbolic dependency edges
+        topo = [("c07_kahn", {"XH_TN": 3, "XH_SELF": 1, "XH_MULTI": 0}), ("c07_run", {"XH_REG": 0, "XH_SELF": 0, "XH_TOUT": "last"}),
+                ("c07_run", {"XH_REG": 1, "XH_SELF": 0, "XH_TOUT": "none"})]
+        if tier == "thorough":
+            topo += [("c07_kahn", {"XH_TN": 4, "XH_SELF": 0, "XH_MULTI": 1}), ("c07_kahn", {"XH_TN": 3, "XH_SELF": 1, "XH_MULTI": 1}),
+                     ("c07_run", {"XH_REG": 1, "XH_SELF": 1, "XH_TOUT": "last"}), ("c07_run", {"XH_REG": 0, "XH_SELF": 1, "XH_TOUT": "last"})]
+        for fn, env in topo:
+            cs.append(xhrun.Cond("harness_topo", fn, env, timeout=1500, label=fn + "".join(f"_{k[3:].lower()}{v}" for k, v in env.items())))
     if pid in ("C01", "C04"):
         # plan -> engine graph: pruning keeps exactly the needed calls and every dependency between them (also through literals)
         prune = [("clcc", "", "last"), ("cllc", "", "all"), ("cllcc", "01,12,23,14", "all")]
